@@ -3,6 +3,7 @@ package props
 import (
 	"fmt"
 	"reflect"
+	"strings"
 
 	"saoverif/actors"
 	"saoverif/chain"
@@ -10,6 +11,7 @@ import (
 	"saoverif/mon"
 	"saoverif/world"
 
+	didtypes "github.com/SaoNetwork/sao/x/did/types"
 	nodetypes "github.com/SaoNetwork/sao/x/node/types"
 	saotypes "github.com/SaoNetwork/sao/x/sao/types"
 )
@@ -124,7 +126,9 @@ func (m *C10) Tx(w *world.World, e *world.TxEvent) {
 				}
 				continue
 			}
-			bound := e.Pre.DidOf["cosmos:"+chain.ChainID+":"+signer] == p.Owner
+			// bound to the owner: the registry row AND the owner DID's own account list say so (the account list is
+			// what the owner maintains through bindings and rotations)
+			bound := e.Pre.DidOf["cosmos:"+chain.ChainID+":"+signer] == p.Owner && accountListed(w, p.Owner, "cosmos:"+chain.ChainID+":"+signer)
 			viaGateway := msg.Provider == p.Provider && actsFor(e.Pre, signer, p.Provider)
 			if _, isNode := e.Pre.Nodes[p.Provider]; !isNode {
 				viaGateway = false
@@ -277,6 +281,66 @@ func scnActor(ctx *check.JobCtx) {
 		w.EndBlock()
 		w.Advance(int64(1 + w.Rng.Intn(20)))
 	}
+	// an account that was unbound from the owner's sid by a key rotation submits an owner-signed store
+	if !w.Halted() {
+		second := w.Acct("pay-revoked") // a funded account, bound as the sid owner's second account
+		sid := a.sowner.Id.(*actors.SidDid)
+		ts := uint64(chain.BlockTime(w.H()).Unix())
+		w.BindSid(a.sowner.Pay, second, sid, ts, nil)
+		w.EndBlock()
+		didX := w.NewDataId()
+		mk := func() (*saotypes.MsgStore, *actors.Account) {
+			return w.BuildStore(world.StoreReq{Owner: a.sowner.Id, Gateway: a.gw, Relayer: second, MsgProv: second.Addr.String(), DataId: didX, CommitId: didX, Duration: 3600, Replica: 1, Timeout: 500, Size: 1000})
+		}
+		// control: while bound, the second account may submit (order stays pending until the gateway is ready)
+		m1, _ := mk()
+		e1 := w.Deliver("store", second, adv("control/store/bound-second-account"), m1)
+		if id, ok := world.AttrU64(e1.Marks, "new-order", "order-id"); ok && e1.OK {
+			w.Cancel(second, id, second.Addr.String())
+		}
+		w.EndBlock()
+		// rotation that unbinds the second account
+		st := snapshotDid(w.C)
+		var remove []string
+		var keep []*didtypes.AccountAuth
+		for _, ad := range st.AccountList[sid.DID()] {
+			if st.AccountId[ad] == second.AccountID() {
+				remove = append(remove, ad)
+			} else {
+				keep = append(keep, &didtypes.AccountAuth{AccountDid: ad, AccountEncryptedSeed: "s2", SidEncryptedAccount: "a2"})
+			}
+		}
+		ts2 := uint64(chain.BlockTime(w.H()).Unix())
+		nv := actors.NewSidVersion(sid.Name, 7, ts2)
+		up := &didtypes.MsgUpdate{Creator: a.sowner.Pay.Addr.String(), Did: sid.DID(), NewDocId: nv.DocId, Keys: nv.Keys, Timestamp: ts2, UpdateAccountAuth: keep, RemoveAccountDid: remove, PastSeed: "seed-x"}
+		if e := w.Deliver("did-update", a.sowner.Pay, nil, up); e.OK {
+			sid.Versions = append(sid.Versions, nv)
+			w.EndBlock()
+			didX = w.NewDataId()
+			m2, _ := mk()
+			w.Deliver("store", second, adv("store-by-unbound-former-account"), m2)
+		}
+		w.EndBlock()
+	}
 	w.Sample("actor-authorization probes: %s", traceSummary(w))
 	w.Finish()
+}
+
+// accountListed: the DID's account list contains an account-did that maps to this account id.
+func accountListed(w *world.World, did, accountId string) bool {
+	ctx := w.C.Ctx()
+	_ = ctx
+	st := snapshotDid(w.C)
+	if len(st.AccountList) == 0 && len(st.AccountId) == 0 {
+		return true // key DIDs have no account list
+	}
+	if _, isSid := st.Versions[strings.TrimPrefix(did, "did:sid:")]; !isSid {
+		return true
+	}
+	for _, ad := range st.AccountList[did] {
+		if st.AccountId[ad] == accountId {
+			return true
+		}
+	}
+	return false
 }
